@@ -14,7 +14,8 @@ EXPLANATION = (
     "b - a + 1 + offset == 0 (mod thin), i.e. states are recorded after steps t, 2t, ... counted from the end of "
     "burn-in, and the recorded value is get_model_state() taken after that iteration's step; (R4) the generator is "
     "default_rng(SeedSequence(seed).spawn(n_chains)[chain_index]) built in this call - its backward slice is exactly "
-    "{seed, n_chains, chain_index}; (R5) the variational arm asks for n_thetas samples once, outside any loop.")
+    "{seed, n_chains, chain_index}; (R5) the variational arm asks for n_thetas samples once, outside any loop; (R6) no refusal fires "
+    "because n_burnin or chain_index is 0 (three-valued evaluation of the guard of every raise under that hypothesis).")
 RULES = {
     "R1": "order: reset_model() and set_rng(rng) dominate the first step()",
     "R2": "step counts: one unconditional step per iteration over n_burnin, then over results.n_thetas * thin",
